@@ -303,7 +303,9 @@ func (c *Ctx) checkFlushAfterWriteData(rule string) {
 		}
 	}
 	if n < 2 {
-		c.undecided(rule, "WriteData through bufio.Writer", "-", fmt.Sprintf("%d sites found, expected the client adapter and the server write loop", n))
+		// fewer buffered writers than on the reference tree is not a defect of this rule's
+		// subject (an unbuffered writer has nothing to flush); the count is kept as evidence
+		c.okTrivial(rule, "WriteData sites that go through a bufio.Writer", "-", fmt.Sprintf("%d (reference tree: client adapter and server write loop)", n))
 	}
 }
 
